@@ -314,6 +314,7 @@ class MindsDBLexer(Lexer):
 
     @_(r'(?:([a-zA-Z_$0-9]*[a-zA-Z_$]+[a-zA-Z_$0-9]*)|(?:`([^`]+)`))')
     def ID(self, t):
+        self.lineno += t.value.count('\n')
         return t
 
     @_(r'\d+\.\d+')
@@ -326,11 +327,13 @@ class MindsDBLexer(Lexer):
 
     @_(r"'(?:\\.|[^'])*(?:''(?:\\.|[^'])*)*'")
     def QUOTE_STRING(self, t):
+        self.lineno += t.value.count('\n')
         # the token keeps its source text; un-escaping is done by the grammar action `quote_string`
         return t
 
     @_(r'"(?:\\.|[^"])*"')
     def DQUOTE_STRING(self, t):
+        self.lineno += t.value.count('\n')
         # the token keeps its source text; un-escaping is done by the grammar action `dquote_string`
         return t
 
@@ -344,6 +347,7 @@ class MindsDBLexer(Lexer):
        r'@"[a-zA-Z_.$][^"]*"'
        )
     def VARIABLE(self, t):
+        self.lineno += t.value.count('\n')
         # the token keeps its source text (sigil and quotes); see `variable_name` in the parser
         return t
 
@@ -353,6 +357,7 @@ class MindsDBLexer(Lexer):
        r'@@"[a-zA-Z_.$][^"]*"'
        )
     def SYSTEM_VARIABLE(self, t):
+        self.lineno += t.value.count('\n')
         # the token keeps its source text (sigil and quotes); see `variable_name` in the parser
         return t
 
